@@ -53,17 +53,23 @@ proof!(c08_hist_asas_2, scen::c08::HIST_LEN, scen::c08::history::<2145, 2>, 40);
 proof!(c08_hist_ssuss_2, scen::c08::HIST_LEN, scen::c08::history::<18660, 2>, 40);
 proof!(c08_hist_vvss_0, scen::c08::HIST_LEN, scen::c08::history::<2322, 0>, 40);
 proof!(c04_bind_h1_k1, scen::c04::len(1, 1), scen::c04::bind::<1, 1, 4>, 5);
-proof!(c04_complete_h1_k1, scen::c04::len(1, 1), scen::c04::complete::<1, 1, 4, 1>, 5);
+proof!(c04_complete_h1_k1, scen::c04::len(1, 1), scen::c04::complete::<1, 1, 4, 1, false>, 5);
+proof!(c04_wrongroot_h1_k1, scen::c04::len(1, 1), scen::c04::complete::<1, 1, 4, 1, true>, 5);
 proof!(c04_bind_h2_k1, scen::c04::len(2, 1), scen::c04::bind::<2, 1, 8>, 6);
-proof!(c04_complete_h2_k1, scen::c04::len(2, 1), scen::c04::complete::<2, 1, 8, 2>, 6);
+proof!(c04_complete_h2_k1, scen::c04::len(2, 1), scen::c04::complete::<2, 1, 8, 2, false>, 6);
+proof!(c04_wrongroot_h2_k1, scen::c04::len(2, 1), scen::c04::complete::<2, 1, 8, 2, true>, 6);
 proof!(c04_bind_h2_k2, scen::c04::len(2, 2), scen::c04::bind::<2, 2, 8>, 8);
-proof!(c04_complete_h2_k2, scen::c04::len(2, 2), scen::c04::complete::<2, 2, 8, 4>, 8);
+proof!(c04_complete_h2_k2, scen::c04::len(2, 2), scen::c04::complete::<2, 2, 8, 4, false>, 8);
+proof!(c04_wrongroot_h2_k2, scen::c04::len(2, 2), scen::c04::complete::<2, 2, 8, 4, true>, 8);
 proof!(c04_bind_h3_k1, scen::c04::len(3, 1), scen::c04::bind::<3, 1, 16>, 7);
-proof!(c04_complete_h3_k1, scen::c04::len(3, 1), scen::c04::complete::<3, 1, 16, 3>, 7);
+proof!(c04_complete_h3_k1, scen::c04::len(3, 1), scen::c04::complete::<3, 1, 16, 3, false>, 7);
+proof!(c04_wrongroot_h3_k1, scen::c04::len(3, 1), scen::c04::complete::<3, 1, 16, 3, true>, 7);
 proof!(c04_bind_h3_k2, scen::c04::len(3, 2), scen::c04::bind::<3, 2, 16>, 10);
-proof!(c04_complete_h3_k2, scen::c04::len(3, 2), scen::c04::complete::<3, 2, 16, 6>, 10);
+proof!(c04_complete_h3_k2, scen::c04::len(3, 2), scen::c04::complete::<3, 2, 16, 6, false>, 10);
+proof!(c04_wrongroot_h3_k2, scen::c04::len(3, 2), scen::c04::complete::<3, 2, 16, 6, true>, 10);
 proof!(c04_bind_h3_k3, scen::c04::len(3, 3), scen::c04::bind::<3, 3, 16>, 13);
-proof!(c04_complete_h3_k3, scen::c04::len(3, 3), scen::c04::complete::<3, 3, 16, 9>, 13);
+proof!(c04_complete_h3_k3, scen::c04::len(3, 3), scen::c04::complete::<3, 3, 16, 9, false>, 13);
+proof!(c04_wrongroot_h3_k3, scen::c04::len(3, 3), scen::c04::complete::<3, 3, 16, 9, true>, 13);
 proof!(c04_corrupt_h1, scen::c04::len(1, 1), scen::c04::corrupt_auth::<1, 4, 1>, 5);
 proof!(c04_corrupt_h2, scen::c04::len(2, 1), scen::c04::corrupt_auth::<2, 8, 2>, 6);
 proof!(c04_corrupt_h3, scen::c04::len(3, 1), scen::c04::corrupt_auth::<3, 16, 3>, 7);
